@@ -258,6 +258,24 @@ def solve_one(job):
     """job = (key, smt2 text, z3 timeout ms, try_cvc5, expect_sat)"""
     key, txt, timeout_ms, use_cvc5 = job
     t0 = time.time()
+    if txt.startswith("; solver=cvc5-strings"):
+        # string-theory lemma: z3's sequence solver is unstable on these; cvc5 --strings-exp decides them
+        with tempfile.NamedTemporaryFile("w", suffix=".smt2", delete=False) as f:
+            f.write(txt)
+            fn = f.name
+        try:
+            out = subprocess.run([CVC5, "--lang", "smt2", "--strings-exp", "--tlimit=%d" % int(timeout_ms), fn],
+                                 capture_output=True, text=True, timeout=timeout_ms / 1000.0 + 10)
+            ans = out.stdout.strip().split("\n")[0] if out.stdout.strip() else ""
+        except subprocess.TimeoutExpired:
+            ans = "timeout"
+        finally:
+            os.unlink(fn)
+        if ans == "unsat":
+            return key, "unsat", "cvc5", time.time() - t0, None
+        if ans == "sat":
+            return key, "sat", "cvc5", time.time() - t0, {"note": "cvc5 reports sat (no model extracted)"}
+        return key, "unknown", "cvc5", time.time() - t0, {"cvc5": ans}
     s = z3.Solver()
     s.set("timeout", int(timeout_ms))
     try:
